@@ -6,6 +6,8 @@
      result  the client attributes a reply to the oldest call that still expects one (Session!Read); the
              reply must carry the identity of exactly that call, and for a streaming call the next item
      done    every call got exactly what it was owed
+     hangup  a client closed its end (after finishing some exchanges, or after writing the calls of one
+             without reading): the other clients are served as if nothing had happened (C09 end to end)
    `stuck' (a client waits for a reply that never comes) and `server_returned' have no disjunct. *)
 EXTENDS Naturals, Sequences, FiniteSets, Json, IOUtils, TLC
 Rec == ndJsonDeserialize(IOEnv.TRACE)
@@ -56,14 +58,21 @@ TResult == /\ IsEv("result")
               /\ got' = [got EXCEPT ![c][at] = @ + 1]
               /\ cur' = [cur EXCEPT ![c] = IF got[c][at] + 1 = OwedCount(k) THEN at ELSE @]
            /\ UNCHANGED <<flat, sent, handled, fin>>
+\* a client that finishes its script got exactly what every call was owed; one that hangs up early (`gone')
+\* got that for every exchange it completed, and nothing for the calls of an exchange it abandoned
 TDone == /\ IsEv("done")
          /\ LET e == Rec[l] c == e.c IN
-            /\ sent[c] = Len(flat[c])
-            /\ \A x \in 1..Len(flat[c]) : got[c][x] = OwedCount(flat[c][x]) /\ e.counts[x] = got[c][x]
+            /\ (~e.gone => sent[c] = Len(flat[c]))
+            /\ Len(e.counts) = sent[c]
+            /\ \A x \in 1..sent[c] :
+                  /\ e.counts[x] = got[c][x]
+                  /\ (got[c][x] # OwedCount(flat[c][x]) => e.gone /\ e.abandoned /\ got[c][x] = 0)
             /\ fin' = [fin EXCEPT ![c] = TRUE]
          /\ UNCHANGED <<flat, sent, handled, cur, got>>
+\* the client's end is closed: the server may still handle what it had sent; nothing else is affected
+THangup == IsEv("hangup") /\ fin[Rec[l].c] /\ UNCHANGED <<flat, sent, handled, cur, got, fin>>
 TEnd == IsEv("end") /\ (\A c \in 1..Len(fin) : fin[c]) /\ UNCHANGED <<flat, sent, handled, cur, got, fin>>
-TNext == TReset \/ TSend \/ THandle \/ TResult \/ TDone \/ TEnd
+TNext == TReset \/ TSend \/ THandle \/ TResult \/ TDone \/ THangup \/ TEnd
 TSpec == TInit /\ [][TNext]_vars
 Accepted ==
     LET d == TLCGet("stats").diameter IN
